@@ -146,7 +146,41 @@ def extract_cfg():
         parent_walk = True
     else:
         raise ExtractError("names.rs: resolve_ident's retries are neither the pop_front walk nor the prefix walk (pop_front x%d, path[..n] x%d)" % (n_pop, n_pre))
-    return {"that_rejected": that_rejected, "parent_walk": parent_walk}
+    # cfg_dead_case_checked: resolver/static_eval.rs maybe_static_eval -- the Case arm goes straight to static_eval_case(expr) /
+    # first calls self.expect_value on every condition and value (proposed repair C10-F7)
+    src3 = rustscan.read("prqlc/prqlc/src/semantic/resolver/static_eval.rs")
+    m3 = rustscan.mask(src3)
+    arm = re.search(r"ExprKind::Case\s*\(\s*(_|[a-z_]+)\s*\)\s*=>", m3)
+    if not arm or "fn static_eval_case" not in m3:
+        raise ExtractError("static_eval.rs: maybe_static_eval's Case arm / static_eval_case not found")
+    tail = m3[arm.end():arm.end() + 700]
+    k = tail.find("static_eval_case")
+    if k < 0:
+        raise ExtractError("static_eval.rs: the Case arm does not reach static_eval_case")
+    before = tail[:k]
+    if re.fullmatch(r"\s*", before):
+        dead_checked = False
+    elif len(re.findall(r"self\s*\.\s*expect_value\s*\(", before)) == 2 and "fn expect_value" in m3 and re.search(r"DeclKind::Module\s*\(\s*_\s*\)", m3) and "is_relation" in m3:
+        dead_checked = True
+    else:
+        raise ExtractError("static_eval.rs: something unknown happens between the Case arm and static_eval_case")
+    # cfg_std_call_rejected: resolver/types.rs validate_expr_type -- inside `if found.lineage.is_none() && expected.unwrap().is_relation()`
+    # an `if let ExprKind::RqOperator { .. } = &found.kind { return Err(..) }` precedes the table inference (proposed repair C10-F4)
+    src4, m4, s4, e4 = rustscan.fn_body("prqlc/prqlc/src/semantic/resolver/types.rs", r"fn\s+validate_expr_type\s*<")
+    body4 = m4[s4:e4]
+    sp = re.search(r"found\s*\.\s*lineage\s*\.\s*is_none\s*\(\s*\)\s*&&\s*expected\s*\.\s*unwrap\s*\(\s*\)\s*\.\s*is_relation\s*\(\s*\)", body4)
+    dt = body4.find("declare_table_for_literal")
+    if not sp or dt < sp.end():
+        raise ExtractError("types.rs: validate_expr_type's `infer a table type` special case is not where it was")
+    between = body4[sp.end():dt]
+    n_rq = len(re.findall(r"ExprKind::RqOperator", between))
+    if n_rq == 0:
+        std_call_rejected = False
+    elif n_rq == 1 and re.search(r"if\s+let\s+ExprKind::RqOperator\s*\{[^}]*\}\s*=\s*&found\s*\.\s*kind\s*\{\s*return\s+Err", between):
+        std_call_rejected = True
+    else:
+        raise ExtractError("types.rs: RqOperator is mentioned in validate_expr_type's table inference in an unknown shape")
+    return {"that_rejected": that_rejected, "parent_walk": parent_walk, "dead_case_checked": dead_checked, "std_call_rejected": std_call_rejected}
 
 
 def generate():
@@ -164,6 +198,6 @@ def generate():
         "([%s], mkSig [%s] [%s]) (* %s *)" % ("; ".join(codes(p) for p in path), "; ".join(ps), "; ".join(codes(n) for n in named), ".".join(path))
         for path, ps, named in info["sigs"]) + " ].\n"
     v += "\n(* what lower_expr's ident arm and resolve_ident's module walk look like in the source now (extract_cfg) *)\n"
-    v += "Definition head_cfg : cfg := mkCfg %s %s.\n" % ("true" if info["cfg"]["that_rejected"] else "false", "true" if info["cfg"]["parent_walk"] else "false")
+    v += "Definition head_cfg : cfg := mkCfg %s.\n" % " ".join("true" if info["cfg"][k_] else "false" for k_ in ("that_rejected", "parent_walk", "dead_case_checked", "std_call_rejected"))
     gen_write("GenC10Std", v)
     return info
